@@ -151,7 +151,7 @@ def _float_accept(Z, t):
     r, a = Z.rec, Z.acc
     s = a["s"](t)
     return z3.Or(
-        z3.And(r["int"](t), z3.ToReal(a["i"](t)) <= Z.MAXF, z3.ToReal(a["i"](t)) >= -Z.MAXF),
+        z3.And(r["int"](t), z3.Not(Z.int_overflows_double(a["i"](t)))),      # the nearest double is finite
         z3.And(r["flt"](t), a["fk"](t) == Z.fk["fin"]),
         z3.And(r["str"](t), Z.float_ok(s), Z.float_fk(s) == Z.fk["fin"]),
     )
@@ -160,7 +160,7 @@ def _float_accept(Z, t):
 def _float_typed(Z, t):
     r, a = Z.rec, Z.acc
     s = a["s"](t)
-    return Z.con["flt"](Z.fk["fin"], z3.If(r["int"](t), z3.ToReal(a["i"](t)), z3.If(r["flt"](t), a["r"](t), Z.float_r(s))))
+    return Z.con["flt"](Z.fk["fin"], z3.If(r["int"](t), Z.int_as_double(a["i"](t)), z3.If(r["flt"](t), a["r"](t), Z.float_r(s))))
 
 
 def _bool_accept(Z, t):
@@ -254,7 +254,9 @@ def build():
 
     def std(modcls, name, accept, typed, reject_accept=None, shape=None, extra=(), accept_known=None, reject_known=None,
             raises_known=None, valid_known=None):
-        vio_accept = ("not (isinstance(result, Value) and result.raw_value is kwargs['value'] and evals(result.python_code)[0])")
+        vio_accept = ("not (isinstance(result, Value) and result.raw_value is kwargs['value'] and evals(result.python_code)[0]"
+                      + (" and SAME(evals(result.python_code)[1], TYPED(kwargs['value']))" if "def TYPED" in NATIVE_ACCEPT[name] else "")
+                      + ")")
         clauses = [
             Clause("P5-none", none_in_none_out, native="kwargs['value'] is None and result is not None",
                    statement="value is None  ==>  result is None"),
@@ -336,21 +338,35 @@ NATIVE_ACCEPT = {
         "def ACCEPTS(v):\n"
         "    n = _num(v)\n"
         "    return n is not None and (isinstance(n, int) or (math.isfinite(n) and n == int(n)))\n"
-        "ACCEPTS_ANY = ACCEPTS\n"),
+        "ACCEPTS_ANY = ACCEPTS\n"
+        "def TYPED(v):\n"
+        "    return int(_num(v))\n"
+        "def SAME(a, b):\n"
+        "    return type(a) is int and a == b\n"),
     "float": (
         "def ACCEPTS(v):\n"
         "    if isinstance(v, bool): return False\n"
-        "    if isinstance(v, int): return abs(v) <= 1.7976931348623157e308\n"
+        "    if isinstance(v, int):\n"
+        "        try: return math.isfinite(float(v))\n"
+        "        except OverflowError: return False\n"
         "    if isinstance(v, float): return math.isfinite(v)\n"
         "    if isinstance(v, str):\n"
         "        try: return math.isfinite(float(v))\n"
         "        except ValueError: return False\n"
         "    return False\n"
-        "ACCEPTS_ANY = ACCEPTS\n"),
+        "ACCEPTS_ANY = ACCEPTS\n"
+        "def TYPED(v):\n"
+        "    return float(v)\n"
+        "def SAME(a, b):\n"
+        "    return type(a) in (int, float) and float(a) == b\n"),
     "bool": (
         "def ACCEPTS(v):\n"
         "    return isinstance(v, bool) or (isinstance(v, str) and v.lower() in ('true', 'false'))\n"
-        "ACCEPTS_ANY = ACCEPTS\n"),
+        "ACCEPTS_ANY = ACCEPTS\n"
+        "def TYPED(v):\n"
+        "    return v if isinstance(v, bool) else v.lower() == 'true'\n"
+        "def SAME(a, b):\n"
+        "    return type(a) is bool and a == b\n"),
     "str": (
         "def ACCEPTS(v):\n"
         "    return isinstance(v, str)\n"
